@@ -116,7 +116,7 @@ def run(ctx) -> None:
     # exactly if it surfaces in the counterpart: both run user code equally often (tables of C01/C05, shared)
     from . import tooltables
     from .common import Relabel
-    tooltables.tool_tables(ctx, "R06.8")
+    tooltables.tool_tables(ctx, "R06.8", tooltables.USES)
     ctx.rule("R06.9", "islice pulls exactly the items itertools.islice pulls (R05.5, shared)")
     c05.r05_5(Relabel(ctx, "R06.9"))
     ctx.floor("tool_cells_decided", 120)
